@@ -192,7 +192,8 @@ def make_task(fail_at, fail_at2=-1):
         # fail_at (and fail_at2) are symbolic integers: the solver decides which tasks (if any) fail on this path; only the first map call fails
         if kw.get("extra") == "call0" and (i == fail_at or i == fail_at2):
             raise RuntimeError("task %d failed" % i)
-        return ("F", i, arg, kw.get("extra"))
+        # the equilibrium functions every task receives are part of the result: serial and parallel must hand over the same ones
+        return ("F", i, arg, kw.get("extra"), psi, f_R, f_Z, type(equilibrium).__name__)
     return task
 
 
@@ -238,6 +239,9 @@ def _mk(nworkers, ntasks, ncalls=1, may_fail=True, fix_later_calls=False, nfail=
                 sched.shutdown()
                 P.workers = None  # __del__ must not touch the model afterwards
         env.tag("/".join("%s(serial %s)" % (o[0], x[0]) for o, x in zip(outcomes, expected)))
+        for x in expected:
+            if x[0] == "returned":
+                env.claim("tasks_receive_the_equilibrium's_own_psi_f_R_f_Z", all(r[4:] == ("psi", "f_R", "f_Z", "_Eq") for r in x[1]))
         for call, (o, x) in enumerate(zip(outcomes, expected)):
             c = "" if ncalls == 1 else "call%d:" % call
             env.claim(c + "never_blocks_forever", o[0] != "deadlock")
